@@ -174,8 +174,13 @@ def model_query(case, impl_res):
 RATE_SCALE = 10000        # params.py sample_rate as an integer token
 
 
+def _int(v):
+    # non-finite cells (an empty template stored as NaN, a saturated sample) are tokens of their own
+    return -999999 if v != v else (-999998 if v in (float('inf'), float('-inf')) else int(v))
+
+
 def _ints(m):
-    return [[int(v) for v in row] for row in m]
+    return [[_int(v) for v in row] for row in m]
 
 
 def probe_files(case, k):
